@@ -57,7 +57,7 @@ def coq_output(st):
     return "(PDiags [%s])" % "; ".join(coq_diag(d) for d in st["diags"])
 
 
-PKGS = {"pa": 0, "pb": 1, "pc": 2}
+PKGS = {"pa": 0, "pb": 1, "pc": 2, "pd": 3}
 
 
 def load_error_text(sc, version):
